@@ -368,6 +368,8 @@ def _interop_chunks(tier):
                 continue            # thorough: all 2715648 FN through trxcon's receive path once (legacy off)
             rx.append(ch)
         elif p["kind"] == "K1" and p["ver"] == 0 and not p["legacy"]:
+            if ch[0] == "sweep" and ch[4] == "all":
+                continue            # burst requests: FN over the boundary set (trx_if.c stores the FN without looking at it)
             tx.append(ch)
     return rx, tx
 
@@ -565,7 +567,7 @@ def run(ctx):
                  "their base by construction and are counted separately, duplicates across bases not removed. Interop leg: %s; "
                  "rx = the base / sweep / burst-pattern cases of the rx v0 points with not-carried fields None (legacy off/on, TN; "
                  "in quick the ToA sweep at TN 0 only, in thorough the all-FN sweep with legacy off only) encoded by the toolkit and decoded by trxcon's trx_data_rx_cb, tx = the cases "
-                 "of the tx v0 points without legacy padding given to trx_if_handle_phyif_burst_req and parsed back by TxMsg "
+                 "of the tx v0 points without legacy padding (FN over the boundary set) given to trx_if_handle_phyif_burst_req and parsed back by TxMsg "
                  "(interop_* counters)."
                  % ("every tx / rx v0 / rx v1 NOPE point and every rx v1 burst point (3 base points each; version-1 points with "
                     "legacy on have the same octets as with legacy off and are left out)" if not ctx.quick else
